@@ -84,6 +84,9 @@ def squeeze(text):
     return "".join(out)
 
 
+# type-position macros the generated items may use (sessim/src/workload.rs TYPE_MACRO_DEFS), defined before every module
+TYPE_MACRO_DEFS = "macro_rules! Arr { ($t:ty, $n:expr) => { [$t; $n] }; } macro_rules! Same { ($t:ty) => { $t }; } macro_rules! Pair { ($a:ty, $b:ty) => { ($a, $b) }; }"
+
 MACRO_ITEMS = [
     # (derive, macro body with $name / $v from the call site and tokens of its own, invocation arguments)
     ("FromStr", "($name:ident { $($v:ident),* }) => { #[derive(derive_more::FromStr)] pub enum $name { $($v,)* Unknown } }", "Probe { Alpha, Beta, Gamma }"),
@@ -120,7 +123,7 @@ def crate_text(items, rend=None, macros_file=None, macro_pad=0, inc_prefix=None)
     style = rend.get("style", "")
     ind = "\t" if "tabs" in style else "    "
     # a leading comment of seeded length shifts every byte offset in the file
-    L = ["#![allow(warnings)] //" + "x" * rend.get("file_pad", 0)]
+    L = ["#![allow(warnings)] " + TYPE_MACRO_DEFS + " //" + "x" * rend.get("file_pad", 0)]
     macs = [it for it in items if it.get("kind") == "macro"]
     mtext = None
     if macs:
@@ -346,16 +349,26 @@ def run(tier, seed, sessim_bin, env_names=()):
     def do(plan):
         its = [by_id[i] for i in plan["order"]]
         mods, panics, diags, _, _ = run_rustc("v%d" % plan["v"], its, plan["entropy"], plan["junk"], deps, rlib, plan["rend"])
-        bad = [i for i in plan["order"] if mods.get(i) != ref[i]]
-        return plan, mods, panics, diags, bad
+        verdicts = {i: differs(mods.get(i), ref[i], by_id[i]) for i in plan["order"]}
+        bad = [i for i in plan["order"] if verdicts[i] == "differs"]
+        kf = [(i, mods.get(i)) for i in plan["order"] if verdicts[i] == "kf5"]
+        return plan, mods, panics, diags, bad, kf
 
     res = {"layer": "A3_real_rustc", "items": len(items), "variants": n_variants,
            "variants_by_surrounding": {k: sum(1 for p in plans if k in p["rend"]) for k in SURROUND}, "rustc_runs": 2 + len(items), "module_comparisons": 0,
            "panics_seen_by_rustc": ref_panics, "diagnostics_seen_by_rustc": ref_diags, "distinct_entropy_seeds": len({p["entropy"] for p in plans}),
+           "known_finding_matches": 0, "known_finding_sample": None,
            "violations": [], "sample_variant": {k: plans[0][k] for k in ("order", "entropy")} if plans else None}
     divergent = []
     with cf.ThreadPoolExecutor(max_workers=16) as ex:
-        for plan, mods, panics, diags, bad in ex.map(do, plans):
+        for plan, mods, panics, diags, bad, kf in ex.map(do, plans):
+            for i, obs in kf:
+                res["known_finding_matches"] += 1
+                if res["known_finding_sample"] is None:
+                    el, ol = [m[1] for m in _KF5_RE.findall(ref[i])], [m[1] for m in _KF5_RE.findall(obs)]
+                    d = [(a, b) for a, b in zip(el, ol) if a != b][:1]
+                    res["known_finding_sample"] = {"id": KF5, "item": dict(by_id[i], renderings=[item_text(by_id[i], plan["rend"])]),
+                                                   "expected_literals": [x[0] for x in d], "observed_literals": [x[1] for x in d]}
             res["rustc_runs"] += 1
             res["module_comparisons"] += len(plan["order"])
             res["panics_seen_by_rustc"] += panics
@@ -395,12 +408,33 @@ def run(tier, seed, sessim_bin, env_names=()):
     return res
 
 
+KF5 = "KF5-tryinto-type-name-keeps-source-spacing-of-macro-arguments"
+_KF5_RE = re.compile(r'(TryIntoError::new\(value,"(?:[^"\\]|\\.)*",)("(?:[^"\\]|\\.)*")')
+
+
+def kf5_norm(text):
+    """Defect model of KF5: the type-name literal handed to `TryIntoError::new` with all blanks removed."""
+    if text is None:
+        return None
+    return _KF5_RE.sub(lambda m: m.group(1) + re.sub(r"\s+", "", m.group(2)), text)
+
+
+def differs(observed, expected, item):
+    """'same' | 'kf5' (differs only as KF5's defect model says, on an item with a macro-typed field) | 'differs'"""
+    if observed == expected:
+        return "same"
+    if observed is not None and expected is not None and "!" in item.get("item", "") and item.get("derive") == "TryInto" \
+            and kf5_norm(observed) == kf5_norm(expected):
+        return "kf5"
+    return "differs"
+
+
 SURROUND = ("macro_pad", "file_pad", "style", "crate_name", "edition", "include")
 
 
 def diverges(order, probe, entropy, junk, by_id, ref, deps, rlib, tag="min", rend=None):
     mods, _, _, _, _ = run_rustc(tag, [by_id[i] for i in order], entropy, junk, deps, rlib, rend)
-    return mods.get(probe) != ref[probe], mods.get(probe)
+    return differs(mods.get(probe), ref[probe], by_id[probe]) == "differs", mods.get(probe)
 
 
 def minimise(seed, plan, probe, by_id, ref, deps, rlib):
@@ -480,13 +514,25 @@ def minimise(seed, plan, probe, by_id, ref, deps, rlib):
 def replay(path):
     rp = json.load(open(path))
     deps, rlib = build_host()
+    if rp.get("kind") == "unlisted-known-finding":
+        # the item as first written vs its other rendering; a violation while the finding is not listed as open
+        it = rp["sample"]["item"]
+        a, _, _, _, _ = run_rustc("rp_kf_a", [it], 0, {}, deps, rlib)
+        b, _, _, _, _ = run_rustc("rp_kf_b", [it], 0, {}, deps, rlib, {it["id"]: 1})
+        v = differs(b.get(it["id"]), a.get(it["id"]), it)
+        listed = any(f["id"] == rp["sample"]["id"] for f in known_findings("C19"))
+        print(json.dumps({"verdict": v, "listed_as_open": listed}))
+        if v == "differs" or (v == "kf5" and not listed):
+            print("VIOLATION property=C19 replay=%s" % path)
+            return 1
+        return 0
     by_id = {it["id"]: it for it in rp["items"]}
     probe = rp["probe"]
     alone, _, _, _, _ = run_rustc("rp_ref", [by_id[probe]], 0, {}, deps, rlib)
     rend = {(k if k in SURROUND else int(k)): v for k, v in (rp.get("rend") or {}).items()}
     mods, _, _, _, _ = run_rustc("rp_var", rp["items"], rp["entropy_seed"], rp.get("junk", {}), deps, rlib, rend)
     print(json.dumps({"probe": by_id[probe], "expected_text": alone.get(probe), "observed_text": mods.get(probe)}, indent=1, ensure_ascii=False))
-    if alone.get(probe) != mods.get(probe):
+    if differs(mods.get(probe), alone.get(probe), by_id[probe]) == "differs":
         print("VIOLATION property=C19 replay=%s" % path)
         return 1
     return 0
